@@ -58,6 +58,7 @@ let () =
         | "dfaddfds" :: _ -> Some (ODfAddF (z 1, tx 1, zi 2))
         | "dfgetfids" :: _ -> Some (ODfGetFs (z 0))
         | "dfgetfdss" :: _ -> Some (ODfGetFs (z 1))
+        | "dflablist" :: _ when List.length toks >= 5 -> None
         | "dflablist" :: _ -> Some (ODfLablist (zi 1, zi 2))
         | _ -> None in
       let show r = match r with
@@ -83,6 +84,8 @@ let () =
                  | "dffdslen" :: _ -> let (s', r) = g_fann_len !st (z 1) (i 1 <> 0) in st := s'; show r
                  | "dffid" :: _ -> let (s', r) = g_fann_get !st (z 0) (i 1 <> 0) (zi 2) in st := s'; show r
                  | "dffds" :: _ -> let (s', r) = g_fann_get !st (z 1) (i 1 <> 0) (zi 2) in st := s'; show r
+                 | "dflablist" :: _ -> let (s', r) = g_lablist_page !st (zi 1) (zi 2) (zi 3) (zi 4) in st := s'; show r
+                 | "restart" :: _ -> let (s', r) = g_restart !st in st := s'; show r
                  | "gettagref" :: _ -> let (s', r) = g_gettagref !st (zi 1) (zi 2) in st := s'; show r
                  | "key" :: _ -> let k = aN_CREATE_KEY (zi 1) (zi 2) in
                    Printf.printf "%d ok %d %d %d\n" !ln (iz k) (iz (aN_KEY2TYPE k)) (iz (aN_KEY2REF k))
